@@ -1,5 +1,10 @@
 package ion
 
+import (
+	"math/big"
+	"time"
+)
+
 // C12: any Writer call sequence ends in a correct stream or an error.
 //
 // A symbolic program of L calls (each call chosen by a solver variable from a 14-letter alphabet, with symbolic
@@ -209,10 +214,14 @@ func H_C12_prog() {
 	prog := make([]vWCall, 0, L+1)
 	for i := 0; i < L; i++ {
 		var c vWCall
-		if batches == 1 && i == L/2 {
+		if (batches == 1 && i == L/2) || (batches == 2 && i == vparam("finishAt", 1)) {
 			c.op = vOpFinish
 		} else {
 			c.op = vnondetInt(0, vNumOps-1)
+			if batches == 2 && i == 0 {
+				// the "rejected Finish" shape: a container is opened first, so the forced Finish is refused
+				vassume(c.op == vOpBeginList || c.op == vOpBeginSexp || c.op == vOpBeginStruct)
+			}
 		}
 		switch c.op {
 		case vOpInt:
@@ -361,5 +370,137 @@ func H_C12_prog() {
 	w2.Finish()
 	vassert(vSameBytes(out.buf, out2.buf), "the same call sequence yields the same bytes")
 	vobserve("outlen", uint64(len(out.buf)))
+	vcover("end")
+}
+
+// ---- every Writer method, one at a time ------------------------------------------------------------------------
+// H_C12_methods: for each of the 24 value/annotation methods of the Writer interface (chosen by a solver variable):
+//   prefix 0: on a fresh Writer the method succeeds and, after Finish, the stream holds exactly that one value;
+//   prefix 1: after a failed call (EndList at top level) the method and the final Finish return an error;
+//   prefix 2: inside a struct without a field name the method (a value) returns an error, and so does everything after.
+
+const vNumMethods = 21
+
+func vCallMethod(w Writer, m int, u uint8) (err error, typ Type, isValue bool) {
+	a := "a"
+	tok := SymbolToken{Text: &a, LocalSID: SymbolIDUnknown}
+	switch m {
+	case 0:
+		return w.WriteNull(), NullType, true
+	case 1:
+		return w.WriteNullType(IntType), IntType, true
+	case 2:
+		return w.WriteBool(u&1 == 1), BoolType, true
+	case 3:
+		return w.WriteInt(int64(int8(u))), IntType, true
+	case 4:
+		return w.WriteUint(uint64(u)), IntType, true
+	case 5:
+		return w.WriteBigInt(big.NewInt(int64(int8(u)))), IntType, true
+	case 6:
+		return w.WriteFloat(1.5), FloatType, true
+	case 7:
+		return w.WriteDecimal(NewDecimalInt(int64(int8(u)))), DecimalType, true
+	case 8:
+		return w.WriteTimestamp(NewDateTimestamp(time.Date(2001, 2, 3, 0, 0, 0, 0, time.UTC), TimestampPrecisionDay)), TimestampType, true
+	case 9:
+		return w.WriteSymbol(tok), SymbolType, true
+	case 10:
+		return w.WriteSymbolFromString("a"), SymbolType, true
+	case 11:
+		return w.WriteString("s"), StringType, true
+	case 12:
+		return w.WriteClob([]byte{u}), ClobType, true
+	case 13:
+		return w.WriteBlob([]byte{u}), BlobType, true
+	case 14:
+		return w.BeginList(), ListType, true
+	case 15:
+		return w.BeginSexp(), SexpType, true
+	case 16:
+		return w.BeginStruct(), StructType, true
+	case 17:
+		return w.Annotation(tok), NoType, false
+	case 18:
+		return w.Annotations(tok, tok), NoType, false
+	case 19:
+		return w.FieldName(tok), NoType, false
+	default:
+		return w.EndList(), NoType, false
+	}
+}
+
+func H_C12_methods() {
+	config := vparam("config", 2)
+	prefix := vparam("prefix", 0)
+	m := vnondetInt(0, vNumMethods-1)
+	u := vnondetU8()
+	out := &vSink{failAt: -1}
+	w := vNewWriter(config, out)
+	switch prefix {
+	case 1:
+		vassert(w.EndList() != nil, "EndList at top level is refused")
+	case 2:
+		vassert(w.BeginStruct() == nil, "BeginStruct succeeds")
+	}
+	err, typ, isValue := vCallMethod(w, m, u)
+	switch prefix {
+	case 0:
+		if m == 19 || m == 20 {
+			vassert(err != nil, "FieldName / EndList at top level is refused")
+			vassert(w.Finish() != nil, "Finish reports the earlier error")
+			vcover("refused")
+			break
+		}
+		vassert(err == nil, "the call succeeds on a fresh Writer")
+		if m >= 14 && m <= 16 { // close the container again
+			var e2 error
+			switch m {
+			case 14:
+				e2 = w.EndList()
+			case 15:
+				e2 = w.EndSexp()
+			default:
+				e2 = w.EndStruct()
+			}
+			vassert(e2 == nil, "matching End succeeds")
+		}
+		if !isValue {
+			vassert(w.WriteInt(7) == nil, "a value can follow an annotation")
+			typ = IntType
+		}
+		vassert(w.Finish() == nil, "Finish succeeds")
+		r := NewReaderBytes(out.buf)
+		vassert(r.Next(), "the stream holds a value")
+		vassert(r.Type() == typ, "of the written type")
+		vassert(r.IsNull() == (m <= 1), "with the written nullness")
+		as, aerr := r.Annotations()
+		want := 0
+		if m == 17 {
+			want = 1
+		} else if m == 18 {
+			want = 2
+		}
+		vassert(aerr == nil && len(as) == want, "and the written annotations")
+		vassert(!r.Next() && r.Err() == nil, "and nothing else")
+		if config >= 2 {
+			d, ok := refBinDecode(out.buf, nil)
+			vassert(ok && !d.undef, "binary output well-formed and self-contained under the independent decoder")
+			us := d.user()
+			vassert(len(us) == 1 && us[0].typ == typ && len(us[0].ann) == want, "the independent decoder finds the one value written")
+		}
+		vcover("ok")
+	case 1:
+		vassert(err != nil, "after an error every call returns an error")
+		vassert(w.Finish() != nil, "and so does Finish")
+		vcover("dead")
+	case 2:
+		if isValue {
+			vassert(err != nil, "a value inside a struct without a field name is refused")
+			vassert(w.EndStruct() != nil, "later calls keep failing")
+			vassert(w.Finish() != nil, "Finish reports the earlier error")
+			vcover("nofield")
+		}
+	}
 	vcover("end")
 }
